@@ -25,6 +25,10 @@ class C01Monitor:
         w = self.w
         if w.cfg["metadata_only"]:
             return
+        # the property's quantifier: null / modular checksums only in acknowledged mode (they cannot detect loss on their own)
+        if w.cfg["cks"] in ("null", "modular") and not self.w.cfg_effective_mode_ack():
+            self.outside_quantifier = getattr(self, "outside_quantifier", 0) + 1
+            return
         self.success_reports += 1
         self.by_reporter[reporter] = self.by_reporter.get(reporter, 0) + 1
         got = w.dest_bytes()
@@ -68,6 +72,15 @@ def _cfg_effective_closure_or_ack(self: World) -> bool:
 
 
 World.cfg_effective_closure_or_ack = _cfg_effective_closure_or_ack  # type: ignore[attr-defined]
+
+
+def _cfg_effective_mode_ack(self: World) -> bool:
+    c = self.cfg
+    mode = c["mode"] if c["req_mode"] in ("cfg", None) else c["req_mode"]
+    return mode == "ack"
+
+
+World.cfg_effective_mode_ack = _cfg_effective_mode_ack  # type: ignore[attr-defined]
 
 
 def success_end_state(w: World, r: Runner, outcome: str, *, allow_faults_cb: bool = False, exactly_one: bool = True) -> list[dict[str, Any]]:
